@@ -75,6 +75,12 @@ def create_linked_view(project, prefix=None, job_ids=None, path=None):
     links = {}
     for job in jobs:
         paths = os.path.join(path_function(job), "job")
+        if links.get(paths, job.path) != job.path:
+            raise RuntimeError(
+                f"The jobs '{os.path.basename(links[paths])}' and '{job.id}' would share the view "
+                f"path '{paths}' (their state point values have the same text). "
+                "Try providing a custom path."
+            )
         links[paths] = job.path
 
     # Updating the view will fail on Windows, if symlinks are not enabled.
